@@ -23,6 +23,7 @@ from sa.pyfront import Program
 from sa.symex import Interp, flat_guards
 
 RULES = {
+    "R-C06-l": "collapsed: the dtype of the output array is chosen from a collection that contains every value the method can write into it (the fill value and every precedence code), not from a filtered subset",
     "R-C06-k": "no operation leaves an explicit entry under the common value (imported from the C07 analysis): such an entry is invisible to to_array but is overwritten by the next common-value move, after which the dense values differ from NumPy's",
     "R-C06-j": "an augmented assignment through an integer-array index (A[rows] -= 1) acts once per DISTINCT row (NumPy buffers the read-modify-write), so the index array must be duplicate-free: one entry's row ids are, a concatenation of several entries' row ids is not",
     "R-C06-i": "the dtype ladder that collapsed relies on (fit_dtype) contains [min, max] in every leaf - imported from the C19 analysis",
@@ -222,6 +223,80 @@ def rule_c(prog, rep):
     n = fit_dtype_sites(prog, ["iindex.collapsed"], rep, "R-C06-c",
                         lambda q: {"inputs": "the method's own docstring example: M.collapsed([1, 0, -1]) raises OverflowError"})
     rep.floor("R-C06-c", 2, n)
+
+
+def rule_l(prog, rep, RID="R-C06-l"):
+    fi = prog.func("iindexes", "iindex.collapsed")
+    I = Interp(prog, hints.param_types_for("iindexes"), hints.FIELD_TYPES, inline=False)
+    I.run(fi)
+    where = fi.fq
+    fulls = [e for e in I.events if e.kind == "call" and e["name"] in ("numpy.full", "numpy.empty", "numpy.zeros") and not e.stack
+             and any(a.op == "call" and tm.callee_name(a) == "iindexes:fit_dtype" and a.args[1] and a.args[1][0].op == "call" and tm.callee_name(a.args[1][0]) in ("builtins.max", "numpy.max")
+                     for a in tm.alts(dict(e["kwargs"]).get("dtype", tm.NONE)))]
+    if len(fulls) != 1:
+        rep.undecided(RID, where, "collapsed: output array", "expected one array whose dtype comes from fit_dtype, found %d" % len(fulls))
+        return
+    out = fulls[0]["result"]
+    dt = [a for a in tm.alts(dict(fulls[0]["kwargs"])["dtype"]) if a.op == "call" and tm.callee_name(a) == "iindexes:fit_dtype"][0]
+    mx = dt.args[1][0] if dt.args[1] else None
+    X = mx.args[1][0] if mx is not None and mx.op == "call" and tm.callee_name(mx) in ("builtins.max", "numpy.max") and mx.args[1] else None
+    if X is None:
+        rep.undecided(RID, where, "collapsed: dtype bounds", "fit_dtype's first argument is not max(<collection>)")
+        return
+
+    def base_of(v):
+        while True:
+            if v.op == "iter":
+                v = v.args[0]
+            elif v.op == "call" and (tm.callee_name(v) or "") in ("builtins.reversed", "builtins.list", "builtins.tuple", "builtins.sorted", "builtins.set") and v.args[1]:
+                v = v.args[1][0]
+            elif v.op == "sub":
+                v = v.args[0]
+            else:
+                return v
+
+    def parts(x):
+        if x.op == "binop" and x.args[0] == "+":
+            return parts(x.args[1]) + parts(x.args[2])
+        return [x]
+
+    def covered(v):
+        """'yes' | 'no' | 'unknown'"""
+        b = base_of(v)
+        res = "unknown"
+        for p in parts(X):
+            if p == b or base_of(p) == b:
+                return "yes"
+            if p.op == "alloc" and p in I.heap and any(el == v for el in I.heap[p].get("elts", [])):
+                return "yes"
+            if p.op == "comp" and p.args[0] in ("list", "gen", "set"):
+                lids = p.args[2]
+                src = I.loopinfo[lids[0]].get("iter") if lids else None
+                if src is not None and base_of(src) == b:
+                    if any(I.loopinfo[l].get("conds") for l in lids):
+                        res = "no"
+                    elif p.args[1].op == "iter":
+                        return "yes"
+        return res
+
+    written = [("fill value", fulls[0]["args"][1], fulls[0])] if len(fulls[0]["args"]) > 1 else []
+    for e in I.events:
+        if e.kind == "store_sub" and not e.stack and e["base"] == out:
+            written.append(("value written at line %d" % e.line, e["value"], e))
+    n = 0
+    for label, v, e in written:
+        n += 1
+        c = covered(v)
+        w = "%s@%d" % (where, e.line)
+        cons = "collapsed: %s %s is within the bounds given to fit_dtype" % (label, tm.show(v)[:30])
+        if c == "yes":
+            rep.proved(RID, w, cons, "an element of the collection whose max/min size the dtype")
+        elif c == "no":
+            rep.violated(RID, w, cons, "the dtype is sized from a FILTERED subset of the codes, but this value is written whether or not it passed the filter (the common value is never among the gathered codes, yet it is written when it is listed before the last precedence)",
+                         witness={"inputs": "a 2-D index with common -1: collapsed([1, -1, 0]) sizes the output as uint8 and then writes -1 (OverflowError, or 255 on NumPy 1.x)"})
+        else:
+            rep.undecided(RID, w, cons, "cannot relate the written value to the collection %s" % tm.show(X)[:40])
+    rep.floor(RID, 3, n)
 
 
 def rule_d(prog, rep):
@@ -576,6 +651,7 @@ def main(tier):
     rule_g(prog, rep)
     rule_h(prog, rep)
     rule_j(prog, rep)
+    rule_l(prog, rep)
     import c07
     sub7 = core.Report("C07", level="other", rules=c07.RULES, tier=tier)
     ii7 = prog.cls("iindexes", "iindex")
